@@ -85,7 +85,23 @@ def plan(tier, seed):
                 add("u:hanging+nonascii-prefix", gen.nonascii_prefix(hang), hname)
                 add("u:hanging+nonascii-last-arg", gen.nonascii_last_argument(hang), hname)
         j["files"].update(extra)
-    return jobs
+    # a large project: > 200 candidate files (mostly filler), the same flagged file at the start, in the middle and at the end of the sorted file list.
+    # Identical files are one and the same input to the detector: whatever it reports for one copy it reports for the others, and the transformer treats them alike
+    # (whatever the detector does to split the work - batching, pre-filtering, caching - is invisible)
+    seen_cm = set(); big = []
+    for j in jobs:
+        if j["cid"] in seen_cm or (tier == "quick" and len(big) >= 3): continue
+        pick = None
+        for name, blob in sorted(j["files"].items()):
+            lab = tuple(j["labels"].get(name, ()))
+            if len(lab) == 3 and lab[2] == "lf" and unb(blob).isascii(): pick = (name, blob); break
+        if pick is None: continue
+        seen_cm.add(j["cid"]); N = 263; at = (2, 131, 260)
+        files = {f"pkg/mod_{i:03d}.py": (pick[1] if i in at else b64(f"value_{i} = {i}\n".encode())) for i in range(N)}
+        grp = [f"pkg/mod_{i:03d}.py" for i in at]
+        big.append({"id": j["cid"] + "#many-files", "cid": j["cid"], "files": files, "labels": {n: tuple(j["labels"].get(pick[0], ())) + ("many-files",) for n in grp}, "argv": j["argv"], "repeat": j.get("repeat", 2),
+                    "monitors": {"snap": False, "sg_locs": True}, "base_of": {}, "identical": [grp]})
+    return jobs + big
 
 def own_calls(run, proj):
     """per file: number of locations the codemod's own semgrep invocation(s) reported, and the locations"""
@@ -126,6 +142,13 @@ def judge(job, res):
     f1, _ = own_calls(r1, r1["proj"]); failed = {os.path.relpath(f, r1["proj"]) if os.path.isabs(f) else f for r in r1["report"]["results"] for f in (r.get("failedFiles") or [])}
     pipes = {os.path.relpath(e["path"], r1["proj"]): e for e in r1["trace"] if e["k"] == "pipe"}
     rewritten = {n for n, e in pipes.items() if e["before"] is not None and e["after"] is not None and e["before"] != e["after"]}
+    for grp in job.get("identical") or []:
+        st["identical_file_groups"] += 1
+        if any(f1.get(n, 0) for n in grp): st["identical_file_groups_flagged"] += 1
+        if len({f1.get(n, 0) for n in grp}) > 1:
+            v.append(Violation("C18", f"{cm}/identical-files-flagged-differently/many-files", f"{cm}: byte-identical files of one project were reported differently by the codemod's own detector: { {n: f1.get(n, 0) for n in grp} } ({len(job['files'])} files in the project)", {"codemod": job["cid"], "files": len(job["files"]), "copies": grp, "src": unb(job["files"][grp[0]]).decode("utf-8", "replace")}))
+        elif len({n in rewritten for n in grp}) > 1:
+            v.append(Violation("C18", f"{cm}/identical-files-rewritten-differently/many-files", f"{cm}: of the byte-identical files {grp} only {sorted(n for n in grp if n in rewritten)} were rewritten", {"codemod": job["cid"], "files": len(job["files"]), "copies": grp}))
     for name, blob in job["files"].items():
         if f1.get(name, 0) == 0: continue
         nt.append((job["id"], name)); st["flagged:" + job["cid"]] += 1; st["fired:" + job["cid"]] += 1
